@@ -105,6 +105,9 @@ def run(ctx, rep):
     block_size_rule(P, rep, 'R-C04-7')
     hash_length_rule(P, rep, 'R-C04-1l')
     bypass_rule(P, rep, 'R-C04-1b')
+    no_inode_in_changed_test_rule(P, rep, 'R-C04-9')
+    from .carried import carried_flags_rule
+    carried_flags_rule(P, rep, 'R-C04-10', only={'state_scrub_process', 'state_check_process', 'state_sync_process', 'repair', 'repair_step'}, min_examined=5)
     # coverage of the percentage plans: the derived limits select exactly the quota (a stripe the plan covers is never skipped)
     from .C15 import quota_rule
     cands = [f_ for f_ in P.variants('block_is_enabled') if (f_.file or '').endswith('scrub.c')]
@@ -238,6 +241,14 @@ def run(ctx, rep):
         d = bad[0].block
         while not f.bdominates(d, ref[0].block):
             d = f.idom[d]
+        # the decision starts at the first test of one of the three flags: climb over dominating flag tests (an `if (error) ... else if
+        # (silent || io)` chain must be judged from its top, where every combination of the flags is still possible)
+        while f.idom[d] is not None and f.idom[d] != d and f.idom[d] in L.body:
+            tt = f.term(f.idom[d])
+            if tt.op == 'br' and len(tt.ops) == 3 and fa._tested_flag(tt.ops[0]) is not None:
+                d = f.idom[d]
+            else:
+                break
         T = fa.at(f.blocks[d][-1])
         key = lambda t: (t['error_on_this_block'], t['silent_error_on_this_block'], t['io_error_on_this_block'])
         at_bad = {key(t) for t in fa.at(bad[0])}
@@ -584,3 +595,21 @@ def is_bad_sites(P, f, value):
                 if k is not None and k < len(c.ops) and f.const_of(c.ops[k]) == value:
                     res.append(c)
     return res
+
+
+def no_inode_in_changed_test_rule(P, rep, rid):
+    """scrub and check decide "this file changed since the last sync, its errors are expected" from size and time-stamp only.  The
+    inode number must not take part: a file restored by fix, copied back from a backup or living on a file-system without persistent
+    inodes has a new inode but the recorded content; with the inode in the test its silent errors (and the parity errors of its
+    stripes) are downgraded to "file changed", nothing is marked bad."""
+    from .C11 import compared_members, CORE
+    rep.rule(rid, 'scrub / check: the "changed since the last sync" test compares size, seconds and nanoseconds and never the inode', 2)
+    for fn in ('scrub_data_reader', 'state_check_process'):
+        f = P.fn(fn)
+        rep.analysed(f)
+        cm = compared_members(f)
+        if not all(cm.get(k, 0) >= 1 for k in CORE):
+            raise AnalysisBroken('%s: stamp comparison not recognised (%s)' % (fn, cm))
+        rep.check(cm.get('inode', 0) == 0, rid, '%s: no inode comparison against the recorded file' % fn, f.file,
+                  'members compared: %s' % sorted(cm) if cm.get('inode', 0) == 0 else 'the recorded inode is compared with st_ino: a file with the recorded bytes but a new inode (restored, copied, volatile inodes) is treated as changed since the last sync, its silent errors are reported as expected differences and its stripes are not marked bad',
+                  function=fn, construct='inode in the changed-since-sync test')
